@@ -58,12 +58,14 @@ type State struct {
 	mem    map[int]*RegMem
 	pktLen smt.Term
 	facts  *factNode
+	guards *factNode // branch conditions that hold on every path to this point
+	known  *knownNode
 	mapVer map[string]int
 	found  map[string]smt.Term // ghost: a lookup in this map returned non-NULL on this path
 }
 
 func (s *State) clone() *State {
-	n := &State{pc: s.pc, pktLen: s.pktLen, facts: s.facts,
+	n := &State{pc: s.pc, pktLen: s.pktLen, facts: s.facts, guards: s.guards, known: s.known,
 		regs: make(map[string]*Val, len(s.regs)+8), mem: make(map[int]*RegMem, len(s.mem)+2),
 		mapVer: make(map[string]int, len(s.mapVer)), found: make(map[string]smt.Term, len(s.found))}
 	for k, v := range s.regs {
@@ -81,6 +83,19 @@ func (s *State) clone() *State {
 	return n
 }
 
+// edgeSnap is the part of the state on a control-flow edge of the entry
+// function that pass_unmodified needs.
+type edgeSnap struct {
+	pc     smt.Term
+	pkt    *RegMem
+	pktLen smt.Term
+	facts  *factNode
+	known  *knownNode
+	phis   map[string]*Val
+	found  map[string]smt.Term
+	multi  bool
+}
+
 type retRec struct {
 	st *State
 	v  *Val
@@ -94,6 +109,7 @@ type frame struct {
 	iters  []int
 	rets   []retRec
 	edgePC map[[2]int]smt.Term
+	snaps  map[[2]int]*edgeSnap
 	cur    *Block
 	top    bool
 }
@@ -139,9 +155,9 @@ func (e *executor) note(format string, args ...interface{}) {
 
 func (e *executor) fresh(prefix string, w int) *Val {
 	if w == 1 {
-		return &Val{W: 1, T: e.ctx.Fresh(prefix, smt.Bool), UB: 1}
+		return &Val{W: 1, T: e.tm.freshConst(prefix, smt.Bool), UB: 1}
 	}
-	return intVal(e.ctx.Fresh(prefix, smt.BV(w)), w)
+	return intVal(e.tm.freshConst(prefix, smt.BV(w)), w)
 }
 
 func (e *executor) ptrTo(r *Region, off int64) *Val {
@@ -170,6 +186,12 @@ func (e *executor) operand(st *State, v *Value) (*Val, error) {
 		x, ok := st.regs[v.Name]
 		if !ok {
 			return nil, fmt.Errorf("use of undefined register %%%s", v.Name)
+		}
+		if x.Ite != nil && st.known != nil {
+			if r := e.resolve(st, x); r != x {
+				st.regs[v.Name] = r
+				x = r
+			}
 		}
 		return x, nil
 	case VInt:
@@ -472,7 +494,7 @@ func (e *executor) loadMem(st *State, p *Ptr, n int) (*Val, error) {
 			res = e.mergeVal(smt.Eq(p.Reg, regLit(id)), v, res)
 		}
 	}
-	return res, nil
+	return e.resolve(st, res), nil
 }
 
 // storeMem writes v through p (after the in-bounds obligation).
@@ -552,7 +574,7 @@ func (e *executor) oblige(fr *frame, st *State, kind, tag string, goal smt.Term,
 		e.ids[id] = 1
 	}
 	o := &Obligation{ID: id, Kind: kind, Func: e.fn.Name, Desc: desc, Source: src, res: e.res,
-		pc: st.pc, goal: goal, facts: st.facts}
+		pc: st.pc, goal: goal, facts: st.facts, known: st.known}
 	if goal.IsTrue() {
 		o.Trivial = true
 	} else {
@@ -625,9 +647,11 @@ func (e *executor) mergeStates(sts []*State) *State {
 			}
 		}
 		if s.pktLen.S != out.pktLen.S {
-			out.pktLen = e.ctx.Let("pktlen", smt.Ite(c, s.pktLen, out.pktLen))
+			out.pktLen = e.tm.named("pktlen", smt.Ite(c, s.pktLen, out.pktLen))
 		}
 		out.facts = commonFacts(s.facts, out.facts)
+		out.guards = commonFacts(s.guards, out.guards)
+		out.known = commonKnown(s.known, out.known)
 		var ms []string
 		for m := range s.mapVer {
 			ms = append(ms, m)
@@ -662,10 +686,10 @@ func (e *executor) mergeStates(sts []*State) *State {
 			if !ok2 {
 				b = smt.False
 			}
-			out.found[m] = e.ctx.Let("found_"+m, smt.Ite(c, a, b))
+			out.found[m] = e.tm.named("found_"+m, smt.Ite(c, a, b))
 		}
 	}
-	out.pc = e.ctx.Let("pc", smt.Or(pcs...))
+	out.pc = e.tm.named("pc", smt.Or(pcs...))
 	return out
 }
 
@@ -685,7 +709,7 @@ func (e *executor) execFunc(f *Function, args []*Val, st *State, path string, to
 	}
 	e.stack = append(e.stack, f.Name)
 	defer func() { e.stack = e.stack[:len(e.stack)-1] }()
-	fr := &frame{f: f, path: path, in: map[int][]*State{}, back: map[int][]*State{}, edgePC: map[[2]int]smt.Term{}, top: top}
+	fr := &frame{f: f, path: path, in: map[int][]*State{}, back: map[int][]*State{}, edgePC: map[[2]int]smt.Term{}, snaps: map[[2]int]*edgeSnap{}, top: top}
 	callerRegs := st.regs
 	es := st.clone()
 	es.regs = map[string]*Val{}
@@ -828,7 +852,15 @@ func (e *executor) edge(fr *frame, st *State, from *Block, toName string, cond s
 	if !share {
 		es = st.clone()
 	}
-	es.pc = e.ctx.Let("pc", pc)
+	es.pc = e.tm.named("pc", pc)
+	if !cond.IsTrue() {
+		d := 0
+		if es.guards != nil {
+			d = es.guards.depth + 1
+		}
+		es.guards = &factNode{t: cond, next: es.guards, depth: d}
+		e.learn(es, cond.S, true, 0)
+	}
 	// phi nodes: parallel assignment
 	type asg struct {
 		name string
@@ -861,8 +893,21 @@ func (e *executor) edge(fr *frame, st *State, from *Block, toName string, cond s
 	key := [2]int{from.Index, to.Index}
 	if old, ok := fr.edgePC[key]; ok {
 		fr.edgePC[key] = smt.Or(old, es.pc)
+		if sn := fr.snaps[key]; sn != nil {
+			sn.multi = true
+		}
 	} else {
 		fr.edgePC[key] = es.pc
+		if fr.top {
+			sn := &edgeSnap{pc: es.pc, pkt: es.regMem(e, ridPacket), pktLen: es.pktLen, facts: es.facts, known: es.known, phis: map[string]*Val{}, found: map[string]smt.Term{}}
+			for _, a := range as {
+				sn.phis[a.name] = a.v
+			}
+			for k, v := range es.found {
+				sn.found[k] = v
+			}
+			fr.snaps[key] = sn
+		}
 	}
 	// back edge?
 	l := fr.f.cfg.loopOf[from.Index]
@@ -928,22 +973,14 @@ func (e *executor) execInstr(fr *frame, st *State, b *Block, in *Instr) (bool, e
 			a = e.ptrToInt(a, 64)
 		}
 		to := in.Ty.Bits
-		var r *Val
-		switch in.Op {
-		case "zext":
-			r = &Val{W: to, T: e.tm.let(in.Res, e.tm.zext(a.T, a.W, to)), UB: a.UB, P: a.P}
-		case "sext":
-			r = intVal(e.tm.let(in.Res, e.tm.sext(a.T, a.W, to)), to)
-			if a.W > 1 && a.UB < uint64(1)<<uint(a.W-1) {
-				r.UB = a.UB
-			}
-		case "trunc":
-			r = intVal(e.tm.let(in.Res, e.tm.trunc(a.T, a.W, to)), to)
-			if a.UB < r.UB {
-				r.UB = a.UB
+		if a.Ite != nil {
+			n := 32
+			if constLeaves(a, &n) {
+				set(e.mapLeaves(a, func(l *Val) *Val { return e.castVal(in.Op, l, to, in.Res) }))
+				break
 			}
 		}
-		set(r)
+		set(e.castVal(in.Op, a, to, in.Res))
 	case in.Op == "bitcast":
 		a, err := e.operand(st, in.Args[0])
 		if err != nil {
@@ -1139,7 +1176,7 @@ func (e *executor) execInstr(fr *frame, st *State, b *Block, in *Instr) (bool, e
 		}
 		conds[in.Targets[0]] = append(conds[in.Targets[0]], def)
 		for _, blk := range order {
-			if err := e.edge(fr, st, b, blk, e.ctx.Let("sw", smt.Or(conds[blk]...)), false); err != nil {
+			if err := e.edge(fr, st, b, blk, e.tm.named("sw", smt.Or(conds[blk]...)), false); err != nil {
 				return false, err
 			}
 		}
@@ -1233,6 +1270,14 @@ func (e *executor) binopVal(fr *frame, st *State, in *Instr, a, b *Val) *Val {
 			return &Val{W: 64, T: e.tm.let(in.Res, e.tm.binop("add", a.T, b.T)), P: p, UB: maxU64}
 		}
 	}
+	if w > 1 && ((constTree(a) && isLiteral(b)) || (constTree(b) && isLiteral(a))) {
+		if c, ok := bvConst(b.T); !(in.Op == "udiv" || in.Op == "sdiv" || in.Op == "urem" || in.Op == "srem") || (ok && c&maskOf(w) != 0) {
+			if constTree(a) {
+				return e.mapLeaves(a, func(l *Val) *Val { return intVal(e.tm.binop(in.Op, l.T, b.T), w) })
+			}
+			return e.mapLeaves(b, func(l *Val) *Val { return intVal(e.tm.binop(in.Op, a.T, l.T), w) })
+		}
+	}
 	switch in.Op {
 	case "udiv", "sdiv", "urem", "srem":
 		if c, ok := bvConst(b.T); !ok || c&maskOf(w) == 0 {
@@ -1257,6 +1302,12 @@ func (e *executor) icmpVal(pred string, a, b *Val) (smt.Term, error) {
 			b = e.intToPtr(b)
 		}
 		return e.icmpPtr(pred, a, b), nil
+	}
+	if constTree(a) && isLiteral(b) {
+		return e.mapLeaves(a, func(l *Val) *Val { return &Val{W: 1, T: e.tm.icmp(pred, l.T, b.T), UB: 1} }).T, nil
+	}
+	if constTree(b) && isLiteral(a) {
+		return e.mapLeaves(b, func(l *Val) *Val { return &Val{W: 1, T: e.tm.icmp(pred, a.T, l.T), UB: 1} }).T, nil
 	}
 	// integer views of pointers compared with 0: null test
 	if (pred == "eq" || pred == "ne") && a.W == 64 {
@@ -1312,4 +1363,46 @@ func (e *executor) icmpPtr(pred string, a, b *Val) smt.Term {
 		return e.tm.icmp(pred, pa.Off, pb.Off)
 	}
 	return e.tm.icmp(pred, e.bitsOf(a), e.bitsOf(b))
+}
+
+func (e *executor) castVal(op string, a *Val, to int, name string) *Val {
+	var r *Val
+	switch op {
+	case "zext":
+		r = &Val{W: to, T: e.tm.let(name, e.tm.zext(a.T, a.W, to)), UB: a.UB, P: a.P}
+		if a.W == 1 {
+			r.UB = 1
+		}
+	case "sext":
+		r = intVal(e.tm.let(name, e.tm.sext(a.T, a.W, to)), to)
+		if a.W > 1 && a.UB < uint64(1)<<uint(a.W-1) {
+			r.UB = a.UB
+		}
+	case "trunc":
+		r = intVal(e.tm.let(name, e.tm.trunc(a.T, a.W, to)), to)
+		if a.UB < r.UB {
+			r.UB = a.UB
+		}
+	}
+	return r
+}
+
+func isLiteral(v *Val) bool {
+	if v.IsPtr || v.P != nil || v.Ite != nil {
+		return false
+	}
+	if v.W == 1 {
+		return v.T.IsTrue() || v.T.IsFalse()
+	}
+	_, ok := bvConst(v.T)
+	return ok
+}
+
+// constTree reports whether v is a (small) ite tree over literals.
+func constTree(v *Val) bool {
+	if v.Ite == nil {
+		return false
+	}
+	n := 32
+	return constLeaves(v, &n)
 }
